@@ -371,10 +371,30 @@ def cond_key(conds):
     return (tuple(keys[i] for i in live), rows2)
 
 
+def _simplify2(t):
+    """simplify, plus: a read of a cell of "the container, stored into under a condition" goes into both arms of the condition
+    (`if k not in d: d[k] = v` followed by `d[k]` is `v if k not in d else d[k]`) - only for agreement with a reference; the template
+    rules see the terms as written"""
+    def rule(x):
+        if x and x[0] == 'idx' and isinstance(x[1], tuple) and x[1] and x[1][0] == 'phi' \
+                and any(isinstance(a, tuple) and a and a[0] == 'upd' for a in (x[1][2], x[1][3])):
+            return ('phi', x[1][1], ('idx', x[1][2], x[2]), ('idx', x[1][3], x[2]))
+        return None
+    t = simplify(t)
+    prev = None
+    n = 0
+    while prev != t and n < 4:
+        prev = t
+        t2 = subst(t, rule)
+        t = simplify(t2) if t2 != t else t
+        n += 1
+    return t
+
+
 def norm(t, lvnum=None, cvnum=None):
     if not isinstance(t, tuple):
         return t
-    return _resort(_phitable(_resort(_renumber(simplify(t), lvnum, cvnum))))
+    return _resort(_phitable(_resort(_renumber(_simplify2(t), lvnum, cvnum))))
 
 
 def _cond_key(conds, lvnum=None, cvnum=None):
@@ -408,7 +428,7 @@ class Summary:
         def _loop_key(ev):
             cs = [(c, pol) for c, pol in ev.conds if not (isinstance(c, tuple) and c and c[0] == 'inloop')]
             try:
-                return repr(cond_key([(_resort(_phitable(_mask(simplify(c), {}))), pol) for c, pol in cs]))
+                return repr(cond_key([(_resort(_phitable(_mask(_simplify2(c), {}))), pol) for c, pol in cs]))
             except Exception:
                 return ''
         loop_order = sorted(range(len(loops_)), key=lambda i_: (_loop_key(loops_[i_]), i_))
@@ -427,8 +447,8 @@ class Summary:
             if ev.kind == 'carry':
                 entry, body = ev.data
                 init = entry[2] if len(entry) > 2 else None
-                key = (loop_ord.get(id(ev.node), -1), digest(_arith(_resort(_phitable(_mask(simplify(init), lvnum))))) if init is not None else '',
-                       digest(_arith(_resort(_phitable(_mask(simplify(body), lvnum))))))
+                key = (loop_ord.get(id(ev.node), -1), digest(_arith(_resort(_phitable(_mask(_simplify2(init), lvnum))))) if init is not None else '',
+                       digest(_arith(_resort(_phitable(_mask(_simplify2(body), lvnum))))))
                 ranked.append((key, len(ranked), (entry[1], digest(init) if init is not None else None)))
         cvnum = {}
         per_loop = {}
